@@ -3,15 +3,16 @@ import Grexv.Lemmas.TrieExact
 import Grexv.Lemmas.ExprLang
 import Grexv.Lemmas.Contracts
 import Grexv.Lemmas.Quotient
+import Grexv.Lemmas.TrieAlphabet
 import Grexv.Props.C13
 
 /-!
 # C16 — every pipeline stage preserves the language; minimisation is minimal (stage theorems)
 
-Proved so far, for all inputs: S5 soundness (the trie accepts every converted test case, nothing
-inserted earlier is lost).  The remaining stage contracts (trie exactness, quotient language and
-minimality, elimination) are checked on the implementation's own snapshots and against the model's
-by the S stream; they are not claimed as theorems.
+Proved for all inputs: S5 soundness and exactness of the trie; S6 with no side condition for every trie
+(the refinement loop ends within its fuel, its result is a stable partition, the rebuilt automaton has
+the trie's language except for the empty word — known finding D1); the S7 algebra; the S7 elimination
+loop under executable contracts.  Minimality of S6 is checked on snapshots by the S stream, not proved.
 -/
 set_option linter.unusedSimpArgs false
 set_option linter.unusedVariables false
@@ -80,6 +81,38 @@ theorem minimize_language (d : Dfa) (pick : Dfa.Block → Nat) (m : Dfa) (hm : D
     m.Accepts w ↔ (d.Accepts w ∧ (w ≠ [] ∨ m.init ∈ m.finals)) :=
   Dfa.minimize_accepts d pick m hm hc w
 
+/-- **S6 (termination)** the model of the `while !w.is_empty()` loop never exhausts the fuel it is given
+(`2 * nodes + 4`), for *every* automaton: the sum over blocks of `|b| - 1` plus the length of the work list
+decreases in every round -/
+theorem minimize_terminates (d : Dfa) : ∃ p, Dfa.minimizePartition d = some p := Dfa.minimizePartition_some d
+
+/-- **S6 (the loop computes a stable partition)** for every tree-shaped automaton whose alphabet covers its
+labels: when the work list is empty, two states of one class have, under every label, successors in one
+class or no successor at all; the classes are non-empty, pairwise disjoint, cover the states and do not mix
+final with non-final states.  This is the Hopcroft invariant, proved for the loop as written (including the
+`w.contains(y)` / smaller-half update and the loose label match of `get_parent_states`) -/
+theorem refinement_is_stable (d : Dfa) (h : Dfa.TreeInv d) (hal : Dfa.AlphabetCovers d)
+    (hs : ∀ l ∈ d.alphabet, l.Simple) : ∃ p, Dfa.minimizePartition d = some p ∧ Dfa.Stable d p :=
+  Dfa.minimizePartition_stable h hal hs
+
+/-- **S6, no side condition** for every list of plain clusters, `minimize` applied to their trie returns an
+automaton, and that automaton accepts a label sequence iff it is one of the clusters and it is non-empty or
+the start class was recorded as final (known finding D1) -/
+theorem minimize_language_trie (cls : List Cluster) (hcls : ∀ cl ∈ cls, ∀ g ∈ cl, g.Simple) :
+    ∃ m, Dfa.minimize (Dfa.trie cls) Dfa.pickMin = some m ∧
+      ∀ w, m.Accepts w ↔ (w ∈ cls ∧ (w ≠ [] ∨ m.init ∈ m.finals)) :=
+  Dfa.minimize_trie cls hcls
+
+/-- **S5+S6 composed, no side condition** without repetition conversion, for every configuration, segmentation
+and list of test cases -/
+theorem minimized_language_total (cfg : Config) (env : Env) (ws : List Str) (hrep : cfg.rep = false) :
+    ∃ m, Dfa.minimize (Dfa.trie (graphemeClusters cfg env ws)) Dfa.pickMin = some m ∧
+      ∀ w, m.Accepts w ↔ (w ∈ graphemeClusters cfg env ws ∧ (w ≠ [] ∨ m.init ∈ m.finals)) := by
+  apply minimize_language_trie
+  intro cl hcl g hg
+  obtain ⟨h1, h2, h3⟩ := Props.C13.clusters_plain_without_rep cfg env ws hrep cl hcl g hg
+  exact ⟨h3, h1, h2⟩
+
 /-- **S5+S6 composed** without repetition conversion: the minimised automaton accepts exactly the non-empty
 converted test cases (and the empty one iff the start class was recorded as final), for every input
 on which the stability check holds -/
@@ -116,6 +149,18 @@ theorem pipeline_symbol_level (cfg : Config) (env : Env) (ws : List Str) (hrep :
     olang (((List.range m.nodes).reverse.foldl (elimStep cfg) (elimInit cfg m m.dfs)).b.get 0) w ↔
       (w ∈ graphemeClusters cfg env ws ∧ (w ≠ [] ∨ m.init ∈ m.finals)) := by
   rw [elimination_language cfg m hc2 w, ← accepts_iff_langFrom, minimized_language_exact cfg env ws hrep m hm hc1 w]
+
+/-- **S5+S6+S7 composed, only the S7 contract left** the minimised automaton exists, and if the executable
+elimination contract holds on it, the expression computed from it denotes exactly the converted test
+cases, minus the empty one unless the start class was recorded as final -/
+theorem pipeline_symbol_level_total (cfg : Config) (env : Env) (ws : List Str) (hrep : cfg.rep = false) :
+    ∃ m, Dfa.minimize (Dfa.trie (graphemeClusters cfg env ws)) Dfa.pickMin = some m ∧
+      (elimContractsB cfg m = true → ∀ w : Word,
+        olang (((List.range m.nodes).reverse.foldl (elimStep cfg) (elimInit cfg m m.dfs)).b.get 0) w ↔
+          (w ∈ graphemeClusters cfg env ws ∧ (w ≠ [] ∨ m.init ∈ m.finals))) := by
+  obtain ⟨m, hm, hacc⟩ := minimized_language_total cfg env ws hrep
+  refine ⟨m, hm, fun hc2 w => ?_⟩
+  rw [elimination_language cfg m hc2 w, ← accepts_iff_langFrom, hacc w]
 
 /-- and `Expression::from` returns that expression, or the empty literal when `b[0]` is `None` -/
 theorem ofDfa_is_b0 (cfg : Config) (d : Dfa) :
